@@ -17,6 +17,33 @@ CLAIMED = {
         "Spec.sliceSel, validated against CPython on every run); 1-D arrays delegate to list indexing (checked by correspondence).",
         "Lean 4 theorem (model = filter-style list-slicing spec) + differential correspondence",
         "DESIGN.md §5 C13"),
+    "C04": (
+        "Kernel-checked theorems for ALL finite multigraphs, all lists of well-typed Boolean is_active expressions and all "
+        "assignments: C04_aux_exact (the rank/root program emitted by the model of _active_vertices_connected can be completed "
+        "to a satisfying assignment of the hidden variables iff the active set induces a connected subgraph / a tree or nothing "
+        "when acyclic -- soundness, completeness and 'caller's variables not otherwise constrained' in one statement), "
+        "C04_prim_exact (native operator route, incl. correctness of the label-propagation semantics w.r.t. Mathlib "
+        "Preconnected), C04_dispatch (never primitive when acyclic; generator total), C04_grid (inferred grid graph = "
+        "4-neighbour adjacency). The model is tied to /repo by program equality: the constraint program emitted by the real "
+        "function on a real Solver equals the model's program (declarations in order, constraints as a multiset) on random "
+        "graphs/grids/argument forms; on any break a bounded search runs the real program through the harness's own z3 "
+        "translation against a BFS oracle to produce a concrete failing graph and pattern.",
+        "Trusted: Lean kernel + standard axioms; Mathlib's SimpleGraph/Preconnected/IsTree; the reference semantics `eval` and "
+        "the documented meaning of graph-active-vertices-connected (`evalAVC`); the hand-written Lean generator (tied by program "
+        "equality on sampled calls); 0-vertex graphs raise ValueError (int_array(0,0,-1)) and are outside the theorem; acyclic "
+        "statement assumes a loop-free graph.",
+        "Lean 4 theorems (certificate layer + Mathlib graph theory) + program-equality correspondence",
+        "DESIGN.md §5 C04"),
+    "C09": (
+        "Kernel-checked theorem C09_exact: for every loop-free multigraph, all well-typed Boolean edge-flag expressions and all "
+        "assignments, the program emitted by the model of active_edges_acyclic is satisfiable by a choice of hidden ranks iff the "
+        "active edges form a forest (Mathlib IsAcyclic of the active-edge graph and no two active parallel edges); C09_total. "
+        "Tied to /repo by program equality on random multigraphs / flag forms; failing-input search over all edge subsets of "
+        "small graphs on the real code.",
+        "Trusted: Lean kernel + standard axioms; Mathlib IsAcyclic; `eval`; hand-written generator model tied by program equality; "
+        "self-loops are outside the statement (the property says loop-free).",
+        "Lean 4 theorems (certificate layer + Mathlib graph theory) + program-equality correspondence",
+        "DESIGN.md §5 C09"),
 }
 
 NOT_YET = "machinery for this property is still under construction in this round (model/theorems not yet committed)"
